@@ -20,7 +20,7 @@ import re
 
 import core
 
-PROOF_MODULES = ["UnytProofs.C06", "UnytProofs.C06Alias"]
+PROOF_MODULES = ["UnytProofs.C06", "UnytProofs.C06Alias", "UnytProofs.C06Methods"]
 HARNESS = os.path.dirname(os.path.abspath(__file__))
 
 UNIT_SETS = [("m", "s", "kg"), ("dimensionless", "dimensionless", "dimensionless"), ("cm", "cm", "cm")]
@@ -474,6 +474,12 @@ def run(tier, seed):
                                         f"es = A.static_exits(AF._HANDLED_FUNCTIONS[{_expr(f)}])\nprint(es)\n"
                                         "assert not [e for e in es if e['kind'] == 'identity'], es\n"})
 
+    # ------------------------------------------------------------ ndarray-method overrides (array.py)
+    try:
+        methods_section(chk, model, known, seed)
+    except Exception as e:  # noqa: BLE001
+        chk.disagree("c06.method", f"method-override section raised {e!r}")
+
     # ------------------------------------------------------------ differential pass (O1)
     if tier == "quick":
         jobs = [(2000 + seed * 31 + i, UNIT_SETS[i % 2]) for i in range(4)] + [(2000 + seed * 31 + 4, UNIT_SETS[2])]
@@ -515,6 +521,96 @@ def run(tier, seed):
             "call templates (positional/keyword/out=) × shapes {0-d,1-d,2-d,square,empty} × {float64,int64,complex128} × out buffer {unyt,bare} × "
             "unit assignments × seeded data; distinct = (template, shape, dtype, out mode, unit set) on which both NumPy and unyt returned (so values were compared bit for bit)")
     return chk.finish(rule)
+
+
+# delegations NumPy documents as equivalent to the method (mirror of Ref.methodEquivC06; compared on every run)
+METHOD_EQUIV = {"ndarray.copy|calls:numpy.copy", "ndarray.take|calls:numpy.take"}
+
+
+def _render_row(r):
+    if r["target"] is None:
+        return "nokernel"
+    parts = []
+    for p, v in r["params"]:
+        if v in ("same",):
+            parts.append(f"{p}=~{p}")
+        elif v == "sameRaw":
+            parts.append(f"{p}={p}")
+        elif v in ("changed", "copied"):
+            parts.append(f"{p}=?{p}")
+    parts += [f"{p}=?{p}" for p, v in r["params"] if v == "injected"]
+    return r["target"] + "(" + ",".join(parts) + ")"
+
+
+def methods_section(chk, model, known, seed):
+    """the ndarray-method overrides: regenerated rows read back from the model, compared with a fresh ast pass over
+    the live classes and with the kernels a call really reaches; their defects are a direct oracle"""
+    import npcatalog as C
+    import c06_alias as A
+    import c06_methods as M
+    import unyt
+
+    uni = M.override_universe()
+    names = sorted({"ndarray." + n for _c, n in uni})
+    live = {}
+    for cn, n in uni:
+        live.setdefault("ndarray." + n, []).extend(M.method_static(getattr(unyt, cn), n))
+    if model is not None:
+        rep = model.ask(["c06.method.names", "c06.method.exclusions"] + [f"c06.method\t{m}" for m in names])
+        got_names = rep[0][1].split(";") if len(rep[0]) > 1 and rep[0][1] else []
+        if got_names != names:
+            chk.disagree("c06.method.names", f"model {got_names} live classes {names}")
+        excl = set(rep[1][1].split(";")) if len(rep[1]) > 1 and rep[1][1] else set()
+        equiv = set(rep[1][2].split(";")) if len(rep[1]) > 2 and rep[1][2] else set()
+        known_m = {k["key"] for k in known if k.get("kind") == "method-forwarding"}
+        if excl != known_m:
+            chk.disagree("exclusions", f"Ref.exclC06Methods {sorted(excl)} and the method-forwarding findings {sorted(known_m)} differ")
+        if equiv != METHOD_EQUIV:
+            chk.disagree("exclusions", f"Ref.methodEquivC06 {sorted(equiv)} differs from the harness list {sorted(METHOD_EQUIV)}")
+        for m, rp in zip(names, rep[2:]):
+            chk.case(("method-row", m))
+            want = ";".join(f"{r['variant']}|{r['receiver']}|{_render_row(r)}|" +
+                            ",".join(d for d in M.record_defects(r) if f"{m}|{d}" not in METHOD_EQUIV) for r in live[m])
+            if rp[0] != "ok" or (rp[1] if len(rp) > 1 else "") != want:
+                chk.disagree("c06.method", f"{m}: model (Np.run on the regenerated rows) {rp[1:]} fresh ast pass {want!r}")
+    # direct oracle: defects of the live overrides
+    for m, rs in live.items():
+        for r in rs:
+            chk.count("method-rows")
+            for d in M.record_defects(r):
+                if f"{m}|{d}" in METHOD_EQUIV:
+                    continue
+                chk.fail(f"{m}|{d}", f"override {r['variant'].split('#')[0]}.{m.split('.', 1)[1]} delegates to {r['target']} ({r['receiver']}) with parameters {r['params']}",
+                         {"python": "import sys\n" f"sys.path.insert(0, {HARNESS!r})\n"
+                                    "import unyt, c06_methods as M\n"
+                                    f"rs = M.method_static(unyt.{r['variant'].split('#')[0]}, {m.split('.', 1)[1]!r})\nprint(rs)\n"
+                                    f"assert not any({d!r} in M.record_defects(r) for r in rs)\n", "defect": d})
+    for cn, n in uni:
+        for e in A.static_exits(getattr(unyt, cn).__dict__[n]):
+            if e["kind"] == "identity":
+                chk.fail(f"ndarray.{n}|identity-test", f"{cn}.{n} decides on operand identity / memory overlap: `{e['src']}`",
+                         {"python": "import sys\n" f"sys.path.insert(0, {HARNESS!r})\n"
+                                    "import unyt, c06_alias as A\n"
+                                    f"es = A.static_exits(unyt.{cn}.__dict__[{n!r}])\nprint(es)\n"
+                                    "assert not [e for e in es if e['kind'] == 'identity'], es\n"})
+    # dynamic tie of the `calls` column: the kernel a call of the override really reaches
+    for t in C.templates("method"):
+        if t.func not in live or A.kind_of(t):
+            continue
+        n = t.func.split(".", 1)[1]
+        if n.startswith("__"):
+            chk.count("method-kernel:dunder-not-observable")   # slot wrappers raise no c_call event
+            continue
+        for sc in t.shapes[:2]:
+            obs = M.observe_kernels(t, t.dtypes[0], sc, 4000 + seed)
+            if obs is None:
+                continue
+            chk.case(("method-kernel", t.tid, sc))
+            chk.count("method-kernel:observed")
+            targets = {r["target"] for r in live[t.func] if r["target"]}
+            if not (targets & obs):
+                chk.disagree("c06.method", f"{t.tid} [{sc}]: the rows say the override delegates to {sorted(targets)}; "
+                                           f"observed kernels named {n}: {sorted(x for x in obs if x.endswith('.' + n))}")
 
 
 def _expr(fid):
